@@ -26,7 +26,7 @@ from ..cfg import build_cfg
 from ..flow import Defs, _Sel, origins
 from ..paths import normal_only
 from ..report import Check
-from ..strdom import BoolV, Interp, StrV
+from ..strdom import BoolV, Interp, IntV, StrV
 
 EXPLANATION = (
     "Static necessary conditions of C10 (the bound capacity + rate x T itself is arithmetic "
@@ -337,11 +337,56 @@ def rule_l6(chk: Check) -> None:
                 chk.ob("L6", f"RateLimitConfig.{kw} <- {attr}", ok)
 
 
+def rule_l7(chk: Check) -> None:
+    chk.rule("L7", "the configured capacity / refill_rate / retry_after reach the limiter as written: from_toml passes the value of the like-named key (also 0, which is a valid quota) and get_rate_limit_config passes the like-named fields")
+    ft = chk.proj.func("server.config:ServerConfig.from_toml")
+    ctor = next((c for c in calls(ft.node) if dotted(c.func) == "cls"), None)
+    want = {"rate_limit_capacity": "capacity", "rate_limit_refill_rate": "refill_rate", "rate_limit_retry_after": "retry_after"}
+    n = 0
+    if ctor is not None:
+        for k in ctor.keywords:
+            if k.arg not in want:
+                continue
+            n += 1
+            key = want[k.arg]
+            # abstract evaluation with the key present and set to 0
+            interp = Interp(chk.proj, ft)
+
+            def oracle(c, _key=key):
+                mc = method_call(c)
+                if mc and mc[1] == "get" and c.args and isinstance(c.args[0], ast.Constant):
+                    return IntV(0, 0) if c.args[0].value == _key else IntV(7, 7)
+                return None
+
+            interp.call_oracle = oracle
+            v = interp.eval(k.value, {})
+            reads = [x.args[0].value for x in walk(k.value) if isinstance(x, ast.Call) and method_call(x) and method_call(x)[1] == "get" and x.args and isinstance(x.args[0], ast.Constant)]
+            reads += [x.slice.value for x in walk(k.value) if isinstance(x, ast.Subscript) and isinstance(x.slice, ast.Constant)]
+            ok = isinstance(v, IntV) and v.lo == 0 and v.hi == 0 and key in reads
+            if not ok:
+                chk.finding(
+                    "L7", ft.key, f"config-value:{key}",
+                    f"`{k.arg}={norm(k.value)[:70]}` does not pass a configured `{key} = 0` through (evaluates to {v!r} for 0; keys read: {reads}): a value written in the configuration is replaced, so the running limiter admits more than the configured bound",
+                    ft.loc(k.value),
+                )
+            chk.ob("L7", f"from_toml: {k.arg} <- key {key}, 0 preserved", ok)
+    chk.require("L7", ft.key, "rate-limit settings read from the file", n, 3, "from_toml no longer reads capacity, refill_rate and retry_after")
+    gr = chk.proj.func("server.config:ServerConfig.get_rate_limit_config")
+    c2 = next((c for c in calls(gr.node) if (dotted(c.func) or "").split(".")[-1] == "RateLimitConfig"), None)
+    for fld in ("capacity", "refill_rate", "retry_after"):
+        v = kwarg(c2, fld) if c2 is not None else None
+        ok = v is not None and dotted(v) == f"self.rate_limit_{fld}"
+        if not ok:
+            chk.finding("L7", gr.key, f"field-crossed:{fld}", f"RateLimitConfig.{fld} is fed from `{norm(v) if v is not None else 'nothing'}` instead of self.rate_limit_{fld}", gr.loc())
+        chk.ob("L7", f"RateLimitConfig.{fld} <- self.rate_limit_{fld}", ok)
+
+
 def run(chk: Check) -> None:
     rule_l1(chk)
     rule_l2(chk)
     rule_l3(chk)
     rule_l4_l5(chk)
     rule_l6(chk)
+    rule_l7(chk)
     chk.trusted = ["CPython ast parser", "engine CFG / abstract evaluator", "asyncio runs coroutines without preemption between awaits"]
     chk.assumptions = ["the inequality admitted <= capacity + refill_rate x T and float rounding are not decided"]
